@@ -65,12 +65,12 @@ type modPkgMeta struct {
 
 // Prog is a type-checked view of the module (base tree or a variant).
 type Prog struct {
-	Deps   *Deps
-	Fset   *token.FileSet
-	Pkgs   map[string]*Pkg // by Rel
-	Order  []*Pkg
-	Src    map[string][]byte // file contents by absolute path
-	idx    *index
+	Deps     *Deps
+	Fset     *token.FileSet
+	Pkgs     map[string]*Pkg // by Rel
+	Order    []*Pkg
+	Src      map[string][]byte // file contents by absolute path
+	idx      *index
 	TypeErrs []TypeErr
 }
 
@@ -212,7 +212,7 @@ func (d *Deps) check(overlay map[string][]byte) (*Prog, error) {
 			Instances:  map[*ast.Ident]types.Instance{},
 		}
 		conf := types.Config{
-			Importer:  imp,
+			Importer: imp,
 			// no language-version restriction: the module says go 1.12 but uses
 			// later features (unsafe.Add, generics); version errors are dependency
 			// drift, not defects, and a variant must not become unanalysable
